@@ -56,6 +56,7 @@ struct Fault {
     int alloc_k = 0;     // fail the k-th allocation request of this op (1-based); 0 = none
     int alloc_mode = 0;  // 0 = once, 1 = from k on
     int alloc_k2 = 0;    // second failing request (pairs), 0 = none
+    uint64_t alloc_mask = 0; // bit k-1 set: the k-th request fails (arbitrary failure patterns, k <= 64)
     int wr_fail_at = -1; // write cookie fails when byte offset >= this (op-relative)
     int wr_errno = 0;
     int wr_chunk = 0;    // >0: short writes of at most this many bytes
@@ -64,7 +65,7 @@ struct Fault {
     int rd_errno = 0;
     int bufmode = 0;     // 0 default(full), 1 unbuffered, 2 line, 3 small(16)
     bool any() const {
-        return alloc_k || wr_fail_at >= 0 || wr_chunk || rd_chunk || rd_err_at >= 0 || bufmode;
+        return alloc_k || alloc_mask || wr_fail_at >= 0 || wr_chunk || rd_chunk || rd_err_at >= 0 || bufmode;
     }
 };
 struct Op {
@@ -109,6 +110,7 @@ struct OpResult {
     bool done = false;
     uint64_t digest = 0;      // everything observable of the call, including the process-wide settings left behind
     uint64_t digest_core = 0; // the same without the settings fingerprint
+    uint64_t digest_noerr = 0; // ... and without errno (the value errno has after a successful call is unspecified)
     int64_t ret = 0;
     int64_t raw = 0; // the library function's own return value
     bool raw_set = false;
@@ -200,6 +202,7 @@ struct Task {
     size_t wr_bytes = 0, rd_pos = 0;
     uint8_t *alt_stack = nullptr; // simulator code called from inside library calls runs here (see alt_call)
     bool on_alt = false;
+    int exit_stage = 0;
     uintptr_t self_id = 0; // pthread_self() as integer
     uintptr_t tls_probe = 0;
 };
@@ -266,6 +269,7 @@ void arena_fill(Task &t);
 
 // handler log: harness handlers call this
 void note_handler(int hid, int kind, const char *msg, int code);
+extern void (*g_handler_after)(int hid);          // called in the handler after logging, on the caller's stack (may re-enter the library)
 extern void (*g_handler_hook)(int hid, int code); // called (on the alt stack) for every logged handler invocation
 extern "C" void sim_handler_log(const char *msg, void *ptr, int error);   // hid 1 (C12/C20 default registration)
 
